@@ -1324,6 +1324,7 @@ func genLog(g *vx.Rng) logSpec {
 
 func main() {
 	r := vx.Start("C13", "logcodec")
+	r.Sum.Samples = []any{}
 	r.Cases("From FL Require Import LogCodec.Model.\n", "case", 150)
 	r.Sum.Rule = "chains of logs of the 6 shapes (new transaction, reverted, set/delete metadata on account/transaction) built with the real constructors, " +
 		"chained by the real ChainLog, marshalled, stored as InsertLogs fills the row (jsonb member order), read back by json.Unmarshal and by Logs.ToCore, re-chained; " +
@@ -1333,6 +1334,10 @@ func main() {
 		var in input
 		if err := json.Unmarshal(d, &in); err == nil && len(in.Logs) > 0 {
 			one(r, in)
+		}
+		var ein entryInput
+		if err := json.Unmarshal(d, &ein); err == nil && len(ein.Entry) > 0 {
+			oneEntry(r, ein)
 		}
 	}
 	if replayOnly {
@@ -1358,6 +1363,19 @@ func main() {
 		for _, b := range shapes {
 			one(r, input{Logs: []logSpec{a, b}})
 		}
+	}
+
+	// strings that enter without a JSON decoder (URL path, header, Go callers), through the real router and Commander
+	for _, ein := range entryBasics() {
+		oneEntry(r, ein)
+	}
+	ge := vx.NewRng(r.Seed ^ 0xC13E)
+	NE := 80
+	if r.Thorough() {
+		NE = 2000
+	}
+	for k := 0; k < NE; k++ {
+		oneEntry(r, genEntry(ge))
 	}
 
 	g := vx.NewRng(r.Seed)
